@@ -39,6 +39,20 @@ Fixpoint for_ {X} (xs : list X) (body : X -> D bool) : D bool :=
   | [] => ret false
   | x :: r => b <- body x ;; if b then ret true else for_ r body
   end.
+(* `for x in xs:` in a function that returns a value: the body says what it returned, if it did *)
+Fixpoint forv_ {X R} (xs : list X) (body : X -> D (option R)) : D (option R) :=
+  match xs with
+  | [] => ret None
+  | x :: r => b <- body x ;; match b with Some v => ret (Some v) | None => forv_ r body end
+  end.
+(* `for x in xs:` with loop-carried locals L (an accumulator) and no return inside *)
+Fixpoint forl_ {X L} (xs : list X) (body : L -> X -> D L) (l : L) : D L :=
+  match xs with
+  | [] => ret l
+  | x :: r => l' <- body l x ;; forl_ r body l'
+  end.
+(* the value a python function returned (falling off the end of a function whose value is used is not modelled) *)
+Definition returned {R} (m : D (option R)) : D R := r <- m ;; match r with Some v => ret v | None => fail end.
 (* short-circuit `a or b` / `a and b` on effectful operands *)
 Definition or_ (a b : D bool) : D bool := x <- a ;; if x then ret true else b.
 Definition and_ (a b : D bool) : D bool := x <- a ;; if x then b else ret false.
@@ -54,6 +68,8 @@ Definition r_height (c : cfg) : D nat := ret (height c).
 Definition level_ids (ds : list deme) (l : nat) : list nat := ids (fun d => Nat.eqb (d_lvl d) l) ds.
 Definition r_levels (l : nat) : D (list nat) := fun s evs => Some (level_ids (demes (ms s)) l, s, evs).
 Definition r_is_active (d : nat) : D bool := fun s evs => Some (d_active (deme_of s d), s, evs).
+(* deme.children: the demes whose parent link (add_child) names d, in creation order *)
+Definition child_ids (ds : list deme) (d : nat) : list nat := ids (fun x => match d_par x with Some p => Nat.eqb p d | None => false end) ds.
 
 (* ---------------------------------------------------------------- effects of the deme loops *)
 (* tree._gsc(tree): the next event must be a consult of the global stop condition whose verdict the configured condition
